@@ -1,5 +1,6 @@
 import ParamVerif.Util.Proto
 import ParamVerif.Refs.Spec
+import ParamVerif.Refs.Hooks
 open Lean ParamVerif ParamVerif.Proto ParamVerif.Refs
 
 /-! Shared driver of C02 / C08 (case format: harness/refs_impl.py). -/
@@ -60,6 +61,19 @@ def parseOp (j : Json) : Except String Op := do
   | "srcSet" => return .srcSet (← getNat j "s") (← getNat j "i") (← getInt j "v")
   | o => throw s!"unknown op {o}"
 
+def parseOpH (j : Json) : Except String OpH := do
+  match ← getStr j "op" with
+  | "lock" => return .lock (← getNat j "t") (← getNat j "p")
+  | _ => return .base (← parseOp j)
+
+def parseHook (j : Json) : Except String Hook := do
+  return { t := ← getNat j "t", a := ← getNat j "a", b := ← getNat j "b", k := ← getInt j "k" }
+
+/-- for the oracle a lock is an operation that assigns nothing -/
+def forOracle : OpH → Op
+  | .base op => op
+  | .lock t _ => .update t []
+
 /-- A callable assigned to a *readonly Integer* parameter passes `_validate` (Number lets callables
 through) and is rejected by the readonly guard with TypeError, on every route — exactly like any valid
 number.  There the driver hands the model a valid literal instead; everywhere else the marker stays and
@@ -73,6 +87,10 @@ def placeGen (ds : List (List PDecl)) (t : Nat) (kv : Nat × Rhs) : Nat × Rhs :
       else kv
     | none => kv
   else kv
+
+def placeGenOpH (f : Op → Op) : OpH → OpH
+  | .base op => .base (f op)
+  | op => op
 
 def placeGenOp (ds : List (List PDecl)) : Op → Op
   | .set t p rhs => .set t p (placeGen ds t (p, rhs)).2
@@ -139,24 +157,29 @@ def parseStep (j : Json) : Except String StepObs := do
            log := ← (← getArr j "log").toList.mapM parseEntry }
 
 /-- the model's run of a history: observations and branch tags -/
-def runModel (c : Cfg) (aux own0 : List (List Int)) (w0 : World) (ops : List Op) : List StepObs × List String :=
-  let (_, _, obs, br) := ops.foldl (fun (acc : World × List (List Int) × List StepObs × List String) op =>
-      let (w, own, l, b) := acc
-      let (r, w', log) := step c op w
+def runModel (c : Cfg) (h : HCfg) (aux own0 : List (List Int)) (w0 : World) (opsH : List OpH) : List StepObs × List String :=
+  let (_, _, obs, br) := opsH.foldl (fun (acc : WorldH × List (List Int) × List StepObs × List String) opH =>
+      let (wh, own, l, b) := acc
+      let w := wh.w
+      let op := forOracle opH
+      let (r, wh', log) := stepH c h opH wh
+      let w' := wh'.w
       let kind := match op with
         | .set t p rhs =>
           let linked := ((w.tgts[t]?).bind (dictGet ·.refs p)).isSome
           let isRef := !(depsOf rhs (nestedOf c t p)).isEmpty
           let sk := isRef && skipsRhs c w rhs (nestedOf c t p) && r == .ok
           "set:" ++ (if isRef then "ref" else "plain") ++ (if linked then ":linked" else ":free") ++ (if sk then ":skip" else "")
-        | .setCls .. => "setCls" | .update .. => "update" | .ctxEnter .. => "ctxEnter" | .ctxExit => "ctxExit"
+        | .setCls .. => "setCls" | .update .. => (match opH with | .lock .. => "lock" | _ => "update")
+        | .ctxEnter .. => "ctxEnter" | .ctxExit => "ctxExit"
         | .srcSet .. => "srcSet:" ++ (if r != .ok then "sync" else if log.length > 1 then "synced" else "quiet")
       -- a class-level assignment that is accepted installs the (copied) Parameter in the class itself
       let own' := match op, r with
         | .setCls t p _, .ok => own.zipIdx.map fun (row, t') => if t' == t then row.set p 1 else row
         | _, _ => own
-      (w', own', { st := { stateOf c w' with aux := aux, own := own' }, err := errName r, log := log } :: l,
-        (if kind.endsWith ":skip" then kind else kind ++ ":" ++ ((errName r).getD "ok")) :: b)) (w0, own0, [], [])
+      let hooked := if log.length > 1 && !(hookTouched h.hooks (match op with | .set t _ _ | .update t _ | .ctxEnter t _ => t | _ => 0) log).isEmpty then ["hook:fired"] else []
+      (wh', own', { st := { stateOf c w' with aux := aux, own := own' }, err := errName r, log := log } :: l, hooked ++
+        (if kind.endsWith ":skip" then kind else kind ++ ":" ++ ((errName r).getD "ok")) :: b)) ({ w := w0, locked := [] }, own0, [], [])
   (obs.reverse, br)
 
 def handle (req : Json) : Except String Json := do
@@ -167,11 +190,22 @@ def handle (req : Json) : Except String Json := do
   let tds ← (← getArr case "targets").toList.mapM fun t => do
     let ds ← (← getArr t "params").toList.mapM parseDecl
     return (ds, ← parseKvs (← t.getObjVal? "ctor"))
-  let ops0 ← (← getArr case "ops").toList.mapM parseOp
+  let ops0 ← (← getArr case "ops").toList.mapM parseOpH
+  let hooks ← match getOpt case "hooks" with
+    | some hs => (← hs.getArr?).toList.mapM parseHook
+    | none => pure []
+  let shared : List (Nat × Nat) ← (← getArr case "targets").toList.zipIdx.flatMapM fun (t, ti) => do
+    let ps ← getArr t "params"
+    return ps.toList.zipIdx.filterMap fun (pj, pi) =>
+      match (getOpt pj "per_instance").bind (·.getBool?.toOption) with
+      | some false => some (ti, pi)
+      | _ => none
+  let hcfg : HCfg := { hooks := hooks, shared := shared }
   let impl ← req.getObjVal? "impl"
   -- the harness stops a history with rx references at the first source update that raised (see refs_impl.py)
   let cut ← getNat impl "cut"
-  let ops := (ops0.take cut).map (placeGenOp (tds.map fun td => td.1.map (·.1)))
+  let opsH := (ops0.take cut).map (placeGenOpH (placeGenOp (tds.map fun td => td.1.map (·.1))))
+  let ops := opsH.map forOracle
   let c : Cfg := { F := fun k xs => k + xs.foldl (· + ·) 0, nsp := nsp, decls := tds.map fun td => td.1.map (·.1) }
   let w0 : World := { src := srcInit, watch := srcInit.map fun _ => [], tgts := [], stack := [] }
   -- construction
@@ -200,10 +234,11 @@ def handle (req : Json) : Except String Json := do
       | none => []
     let constFlags (ds : List PDecl) : List Int := ds.map fun d => if d.constant || d.readonly then 1 else 0
     let aux0 : List (List Int) := ((tds.take w1.tgts.length).map fun td =>
-      [0, 0, 0] ++ constFlags (td.1.map (·.1)) ++ constFlags (td.1.map (·.1))) ++ dynRow
+      [0, 0, 0] ++ constFlags (td.1.map (·.1)) ++ constFlags (td.1.map (·.1)) ++ td.1.map (fun _ => 1)) ++ dynRow
     let sub := (getOpt case "sub").bind (·.getBool?.toOption) |>.getD false
     let own0 : List (List Int) := tds.map fun td => td.1.map fun _ => if sub then 0 else 1
-    let (mSteps, branches) := runModel c aux0 own0 w1 ops
+    if !hcfg.ok c then throw "hooks: a hook assigns the parameter it watches, or hooks chain"
+    let (mSteps, branches) := runModel c hcfg aux0 own0 w1 opsH
     let mInit := { stateOf c w1 with aux := aux0, own := own0 }
     let unsupported := mSteps.any (fun o => o.err == some "unsupported")
     let implOk := (getOpt impl "ctor_err").isNone
@@ -217,8 +252,8 @@ def handle (req : Json) : Except String Json := do
     let same := decide (iInit = mInit) && decide (iSteps = mSteps)
     let (n, sImpl, sModel) ←
       if prop == "C08" then do
-        let (n, vi) := specC08 c iInit (ops.zip iSteps)
-        let (_, vm) := specC08 c mInit (ops.zip mSteps)
+        let (n, vi) := specC08 c hooks iInit (ops.zip iSteps)
+        let (_, vm) := specC08 c hooks mInit (ops.zip mSteps)
         -- a known finding is reported only on runs where code and model agree on everything observed
         let render : Option Verdict → Option String := fun
           | some (.hard w) => some w
@@ -227,9 +262,11 @@ def handle (req : Json) : Except String Json := do
         pure (n, render vi, render vm)
       else do
         let iTwin ← (← getArr impl "twin").toList.mapM parseStep
-        let (mTwin, _) := runModel c aux0 own0 w1 (twinOps c mInit (ops.zip mSteps))
-        let (n, vi) := specC02 c iInit (ops.zip iSteps) iTwin
-        let (_, vm) := specC02 c mInit (ops.zip mSteps) mTwin
+        let twinH : List OpH := (opsH.zip (twinOps c mInit (ops.zip mSteps))).map fun (oh, tw) =>
+          match oh with | .lock .. => oh | .base _ => .base tw
+        let (mTwin, _) := runModel c hcfg aux0 own0 w1 twinH
+        let (n, vi) := specC02 c hooks iInit (ops.zip iSteps) iTwin
+        let (_, vm) := specC02 c hooks mInit (ops.zip mSteps) mTwin
         pure (n, vi, vm)
     return Json.mkObj [
       ("model", Json.mkObj [("ctor_err", Json.null), ("init", Json.mkObj (stateFields mInit)), ("steps", jList jStep mSteps), ("cut", toJson cut)]),
